@@ -1175,6 +1175,12 @@ func genCase(rng *rand.Rand) Case {
 		pos := c.S0 + uint64(rng.Intn(int(lsn-c.S0)+40))
 		c.ErrResp = []ErrAt{{After: at, XLogPos: pos}}
 		c.Mode = "gen-error-response"
+		if rng.Intn(2) == 0 {
+			// ... while a worker is slow: what was delivered before the error is still in flight when
+			// the client comes back from the recovery
+			c.Hold = append(c.Hold, rng.Intn(2))
+			c.Mode = "gen-error-response-slow-worker"
+		}
 	case 7, 8: // C17 fault injection
 		kinds := []string{"sink-permanent", "conn-error", "nil-message", "close-channel"}
 		c.Fault = &Fault{Kind: kinds[rng.Intn(len(kinds))], At: rng.Intn(nmsg)}
